@@ -35,7 +35,7 @@ def describe(tier):
                 "slots holding different values; layer B: BFS over packet histories with state = the largest-"
                 "packet-number slots (which slots share a space is taken from RFC 9000 12.3, not from TLExport's tables: a 0-RTT packet moves the 1-RTT slot of its direction and vice versa); layer N: for 4 suites x 9 base values up to 2^62 x both directions, real 1-RTT packets protected by "
                 "the peer model at packet numbers base+1, base+2 are fed to the real session and must be opened (the reconstructed "
-                "number is the AEAD nonce). non-trivial: the reference decode differs from the plain truncated value "
+                "number is the AEAD nonce), with runts of the same direction (incomplete header-protection sample) between them. non-trivial: the reference decode differs from the plain truncated value "
                 "(window arithmetic mattered); distinct = distinct (l, largest, truncated)",
         "exhaustive": True,
         "bounds": {"lengths": [1, 2, 3, 4], "k_values": {l: [str(k) for k in _ks(l, tier)] for l in (1, 2, 3, 4)},
@@ -162,6 +162,19 @@ def run_n(case):
                 pn = base + step
                 slot = q.packet_number_server if d == "s" else q.packet_number_client
                 slot[key] = pn - 1 if step == 1 else slot[key]
+                if step == 2:
+                    # history with a damaged packet: between the two packets a runt of this direction arrives whose header-protection
+                    # sample is incomplete (a packet cut in the capture); it cannot be opened and must not change what follows
+                    fr0, _ = conn.stream_frames([(0 if d == "c" else 3, 3)])
+                    whole = conn.short_pkt(d, fr0, pn=pn + 7, pn_len=4)
+                    hdr = 1 + len(conn.dcid_for[d])
+                    for keep in (hdr + 4 + 7, hdr + 4 + 15, hdr + 2):
+                        src, dst = ends.src_dst(d)
+                        t += 1
+                        try:
+                            m.handle_quic_packet(Packet(net.build_frame(src, dst, "udp", whole[:keep]), t), m.keylog, m.quic_sessions, {}, True)
+                        except Exception as e:
+                            fails.append({"kind": "raised", "sig": {"layer": "N", "suite": f"{suite:#06x}", "runt": keep - hdr}, "detail": repr(e)})
                 fr, data = conn.stream_frames([(0 if d == "c" else 3, 24)])
                 raw = conn.short_pkt(d, fr, pn=pn, pn_len=4)
                 src, dst = ends.src_dst(d)
